@@ -17,7 +17,9 @@ MANIFEST = {
             'parties are in bijection with the t coefficients (uniform, independent of the secret). Regenerated from the source '
             'on every run: the table of all dealing sites with the obligation that each passes the runtime threshold as degree, '
             'and the list of functions sending messages. Simulator runs intercept every dealing (degree, #coefficients drawn) and '
-            'check the wire.',
+            'check the wire. The coefficient vectors of random_split and (under NumPy) np_random_split are enumerated exhaustively '
+            'over every answer sequence of the randomness oracle for GF(3), GF(5), GF(2^2), GF(2^3), GF(3^2), t = 1, 2, one and two '
+            'secrets per call: every coefficient vector over the WHOLE field must occur with the same exact probability.',
     'note': 'Trusted: Coq kernel; the ast translator gen_deal_sites.py (fail-closed: unrecognised degree expression => obligation '
             'fails); random_split model tied by C12/C11; uniformity/freshness of secrets.randbelow is an oracle assumption; '
             '"degree exactly t" holds when the first drawn coefficient is nonzero (probability 1 - 1/|F|), stated as the polynomial '
@@ -205,6 +207,125 @@ def run(ctx):
                     ctx.violation('dealing-degree-not-threshold-in-force m=%d t=%d' % (m, t1), {**key, **d})
         finally:
             sim.close()
+    # ---- coefficients of the dealt polynomials are uniform over the WHOLE field and independent per secret:
+    # exhaustive enumeration of every answer sequence of the randomness oracle through the real dealing functions
+    # (list and, under NumPy, array variant) for small prime and extension fields; the coefficient vectors are
+    # recovered from the dealt shares by interpolation in the field.
+    from fractions import Fraction
+    from mpyc import thresha, finfields
+    import secrets as _secrets
+    import itertools as _it
+
+    class _NeedMore(Exception):
+        pass
+
+    class _Oracle:
+        def __init__(self, prefix):
+            self.prefix, self.pos, self.prob, self.args = prefix, 0, Fraction(1), []
+
+        def _next(self, n):
+            if self.pos >= len(self.prefix):
+                e = _NeedMore()
+                e.n = n
+                raise e
+            v = self.prefix[self.pos]
+            self.pos += 1
+            self.prob /= n
+            self.args.append(n)
+            return v
+
+        def randbelow(self, n):
+            return self._next(n)
+
+        def randbits(self, k):
+            return self._next(1 << k)
+
+        def choice(self, seq):
+            return seq[self._next(len(seq))]
+
+    def _all_runs(fn):
+        stack = [()]
+        while stack:
+            prefix = stack.pop()
+            orc = _Oracle(prefix)
+            thresha.secrets = orc
+            try:
+                r = fn()
+            except _NeedMore as e:
+                if e.n > 4096:
+                    raise RuntimeError('oracle outcome space too large')
+                stack.extend(prefix + (v,) for v in range(e.n))
+                continue
+            yield r, orc
+
+    def _coeffs(F, ys, t):
+        """coefficients c_1..c_t of the degree <= t polynomial through (i+1, ys[i]), i = 0..t (Newton interpolation in F)"""
+        xs = [F(i + 1) if not isinstance(F.modulus, int) else F(i + 1) for i in range(t + 1)]
+        coef = [ys[0]]
+        basis = [F(1)]                      # polynomial prod (X - x_j), coefficient list
+        poly = [ys[0]]
+        for k in range(1, t + 1):
+            basis = [F(0)] + basis          # multiply by X
+            for j in range(len(basis) - 1):
+                basis[j] = basis[j] - xs[k - 1] * basis[j + 1]
+            val = F(0)
+            for c in reversed(poly):
+                val = val * xs[k] + c
+            bval = F(0)
+            for c in reversed(basis):
+                bval = bval * xs[k] + c
+            a = (ys[k] - val) / bval
+            poly = [(poly[j] if j < len(poly) else F(0)) + a * basis[j] for j in range(len(basis))]
+        return tuple(str(c) for c in poly[1:t + 1])
+
+    try:
+        import numpy as _np
+    except ImportError:
+        _np = None
+    variants = [('random_split', lambda F, ss, t, m: thresha.random_split(F, [F(x) for x in ss], t, m))]
+    if _np is not None and hasattr(thresha, 'np_random_split'):
+        variants.append(('np_random_split',
+                         lambda F, ss, t, m: [list(r) for r in thresha.np_random_split(F, F.array([F(x).value for x in ss], check=False), t, m)]))
+    else:
+        ctx.notes.append('NumPy not importable: np_random_split coefficients not enumerated in this run')
+    fields = [('GF(3)', finfields.GF(3), 3), ('GF(5)', finfields.GF(5), 5),
+              ('GF(2^2)', finfields.GF(finfields.find_irreducible(2, 2)), 4),
+              ('GF(2^3)', finfields.GF(finfields.find_irreducible(2, 3)), 8),
+              ('GF(3^2)', finfields.GF(finfields.find_irreducible(3, 2)), 9)]
+    nco = 0
+    try:
+        for vname, split in variants:
+            for fname, F, q in fields:
+                for t in (1, 2):
+                    m = t + 1 if q > t + 1 else None
+                    if m is None or m >= q:
+                        continue
+                    for batch in (1, 2):
+                        if q ** (t * batch) > ctx.n(5000, 70000):
+                            continue
+                        ss = tuple((h + 1) % q for h in range(batch))
+                        hist, total, argsets = {}, Fraction(0), set()
+                        for shr, orc in _all_runs(lambda: split(F, ss, t, m)):
+                            vec = tuple(_coeffs(F, [F(shr[i][h]) if not isinstance(shr[i][h], F) else shr[i][h] for i in range(t + 1)], t)
+                                        for h in range(batch))
+                            hist[vec] = hist.get(vec, 0) + orc.prob
+                            total += orc.prob
+                            argsets.add(tuple(orc.args))
+                        nco += 1
+                        key = {'variant': vname, 'field': fname, 't': t, 'm': m, 'batch': batch}
+                        ctx.case(key, kind='coefficient distribution ' + vname)
+                        want = Fraction(1, q ** (t * batch))
+                        if total != 1 or len(hist) != q ** (t * batch) or set(hist.values()) != {want}:
+                            worst = sorted(hist.items(), key=lambda kv: kv[1])
+                            ctx.violation('coefficients-not-uniform %s %s t=%d batch=%d' % (vname, fname, t, batch),
+                                          {**key, 'distinct_coefficient_vectors': len(hist), 'expected': q ** (t * batch),
+                                           'least_likely': [str(worst[0][0]), str(worst[0][1])],
+                                           'most_likely': [str(worst[-1][0]), str(worst[-1][1])],
+                                           'oracle_arguments_seen': sorted(argsets)[:3]})
+    finally:
+        thresha.secrets = _secrets
+    ctx.extra['coefficient_distributions_enumerated'] = nco
+    ctx.log('coefficient distributions enumerated exhaustively: %d (variants: %s)' % (nco, [v[0] for v in variants]))
     ctx.extra['dealings_intercepted'] = ndeal
     ctx.log('%d dealings intercepted; %d dealing sites, %d send sites in source' % (ndeal, len(sites), len(senders)))
     if ndeal == 0:
